@@ -36,3 +36,26 @@ def delta_small(tier):
 def ints_small(tier):
     vals = list(range(0, 300)) + [2 ** k + d for k in (7, 8, 14, 15, 16, 21, 28, 31, 32, 35, 63, 64) for d in (-1, 0, 1)]
     return ({"size": v} for v in vals), "sizes 0..299 and 2^k-1,2^k,2^k+1 for k in {7,8,14,15,16,21,28,31,32,35,63,64}"
+
+
+@domain("pkt_payloads")
+def pkt_payloads(tier):
+    lens = [0, 1, 2, 15, 16, 255, 4091, 4092, 65515, 65516, 65517, 65519, 65520, 65531, 65532, 70000]
+    def gen():
+        yield {"data": None}
+        for n in lens:
+            yield {"data": bytes([n % 251]) * n}
+    return gen(), f"None and payloads of lengths {lens}"
+
+
+@domain("len_prefixes")
+def len_prefixes(tier):
+    import itertools
+    alpha = b"019afAF gG+-_x\x00\xff"
+    def gen():
+        for n in (0, 1, 2, 3, 5):
+            for t in itertools.product(alpha[:6], repeat=n):
+                yield {"sizestr": bytes(t)}
+        for t in itertools.product(alpha, repeat=4):
+            yield {"sizestr": bytes(t)}
+    return gen(), f"all strings of length 4 over {alpha!r} plus lengths 0,1,2,3,5 over its first six symbols"
